@@ -162,6 +162,9 @@ func solveCtx(parent context.Context, query string, workDir string, tag string, 
 			answers = append(answers, a)
 			if a.status == "sat" || a.status == "unsat" {
 				final = &a
+			} else if a.status == "error" && a.solver != "cvc5" {
+				// malformed query (engine fault): no point in letting the other solvers chew on it
+				got = len(solvers)
 			} else if launched == 1 {
 				// first solver gave up quickly: start the others now
 				rem := timeoutSecs - int(time.Since(start).Seconds())
